@@ -240,6 +240,15 @@ func routerInvariants(p rPath, n int, which string) []string {
 	cur := "cx0"
 	done := false // a terminal event happened: nothing may follow
 	prevKind, prevRoute, prevNote := "", -1, ""
+	// after a successful prefetch the routes that were waiting for it are asked again: at least the first of
+	// them before the router reads more or gives the connection to the fallback
+	var waiting map[int]bool
+	reasked := false
+	checkReasked := func(i int, what string) {
+		if which == "routing" && len(waiting) > 0 && !reasked {
+			add("%s (step %d) although new bytes arrived and none of the routes waiting for them was asked again: the router reads on (or falls through) without ever deciding them", what, i)
+		}
+	}
 	for i, s := range p.Steps {
 		if s.Kind == "model-problem" {
 			add("model: %s", s.Note)
@@ -265,6 +274,16 @@ func routerInvariants(p rPath, n int, which string) []string {
 			connOK()
 		case "prefetch":
 			connOK()
+			checkReasked(i, "prefetch")
+			waiting, reasked = nil, false
+			if s.Note == "ok" {
+				waiting = map[int]bool{}
+				for j := lastHandled + 1; j < n; j++ {
+					if resEpoch[j] == epoch && res[j] == "NM" {
+						waiting[j] = true
+					}
+				}
+			}
 			if which == "deadline" && !armed {
 				add("prefetch (step %d) runs without the matching deadline armed: a silent or trickling client holds the connection forever", i)
 			}
@@ -287,6 +306,9 @@ func routerInvariants(p rPath, n int, which string) []string {
 			}
 		case "match":
 			connOK()
+			if waiting[s.Route] {
+				reasked = true
+			}
 			if which == "routing" {
 				if s.Route <= lastHandled {
 					add("route %d is matched again although route %d already ran (repetition / out of order)", s.Route, lastHandled)
@@ -329,6 +351,7 @@ func routerInvariants(p rPath, n int, which string) []string {
 			}
 		case "fallback":
 			connOK()
+			checkReasked(i, "fallback")
 			if which == "deadline" && armed {
 				add("the fallback handler runs with the matching deadline still armed")
 			}
